@@ -334,6 +334,45 @@ fn main() {
       if http_err.is_some() {
         break;
       }
+      // The queue lives in the index directory, not in the server process: now and then the service is
+      // restarted before a /commit, or a batch is queued through the Rust API while the service is down
+      // (the way a CLI `add` would), and the next /commit of the restarted service must apply it.
+      let restart_before_commit = matches!(s, Step::Commit) && rng.chance(0.3);
+      let queue_through_library = matches!(s, Step::Add(_)) && rng.chance(0.15);
+      if restart_before_commit || queue_through_library {
+        server.stop();
+        if let (true, Step::Add(docs)) = (queue_through_library, s) {
+          let r = (|| -> anyhow::Result<()> {
+            let index = Index::open(idx::opts(&d_http, false))?;
+            let mut w = index.writer()?;
+            for d in docs.iter() {
+              w.add_document(&idx::doc(d))?;
+            }
+            // dropped without commit: the operations stay queued in the log
+            Ok(())
+          })();
+          if let Err(e) = r {
+            l.inconclusive(format!("queueing through the library while the service is down: {e:#}"));
+            return;
+          }
+          l.count("http_batches_queued_through_library_while_service_down", 1);
+        }
+        match http::start_server(&d_http, &[]) {
+          Ok(sv) => server = sv,
+          Err(e) if e.starts_with("slow:") => {
+            l.inconclusive(format!("service restart: {e}"));
+            return;
+          }
+          Err(e) => {
+            l.fail("http-restart-fails", format!("the service does not come back on its own directory: {e}"), case(json!(null)));
+            return;
+          }
+        }
+        l.count("http_service_restarts", 1);
+        if queue_through_library {
+          continue;
+        }
+      }
       let r = match s {
         Step::Add(docs) => {
           if i % 2 == 0 {
